@@ -21,6 +21,7 @@ func protocolFromContentType(ct string, unaryKind bool) (Protocol, string, bool)
 // hC02Pipe: what the backend is handed is a valid request of the negotiated protocol/codec/compression.
 func hC02Pipe() {
 	refStrictCompressed = true // every peer here is well-formed
+	defer func() { refStrictCompressed = false }() // (the native twin runs many cases in one process)
 	cfg, ok := pickPipeCfg()
 	if !ok {
 		return
